@@ -210,6 +210,171 @@ Proof.
   - right. cbv zeta in H1, H2. rewrite H1, H2. split; reflexivity.
 Qed.
 
+(* ------------------------------------------------------------------ Part X: compatibility, groups, reachability, skills *)
+Lemma mapi_from_nil_iff {A B} (f : Z -> A -> list B) l : forall k,
+  concat (mapi_from k f l) = [] <-> forall n x, nth_error l n = Some x -> f (k + Z.of_nat n) x = [].
+Proof.
+  induction l as [|y r IH]; intros k; cbn [mapi_from concat].
+  - split; [intros _ n x H; destruct n; discriminate|reflexivity].
+  - rewrite app_nil_iff, (IH (k + 1)). split.
+    + intros [H1 H2] n x Hn. destruct n as [|n]; cbn [nth_error] in Hn.
+      * injection Hn as <-. replace (k + Z.of_nat 0) with k by lia. exact H1.
+      * replace (k + Z.of_nat (S n)) with (k + 1 + Z.of_nat n) by lia. apply H2. exact Hn.
+    + intros H. split.
+      * specialize (H 0%nat y eq_refl). replace (k + Z.of_nat 0) with k in H by lia. exact H.
+      * intros n x Hn. specialize (H (S n) x Hn). replace (k + Z.of_nat (S n)) with (k + 1 + Z.of_nat n) in H by lia. exact H.
+Qed.
+
+Lemma mapi_nil_iff {A B} (f : Z -> A -> list B) l :
+  concat (mapi f l) = [] <-> forall n x, nth_error l n = Some x -> f (Z.of_nat n) x = [].
+Proof. unfold mapi. rewrite mapi_from_nil_iff. split; intros H n x Hn; specialize (H n x Hn); exact H. Qed.
+
+Lemma all_same_iff l : all_same l = true <-> (forall c1 c2, In c1 l -> In c2 l -> c1 = c2).
+Proof.
+  destruct l as [|x r]; cbn [all_same].
+  - split; [intros _ c1 c2 []|reflexivity].
+  - rewrite forallb_forall. split.
+    + intros H c1 c2 H1 H2.
+      assert (E : forall c, In c (x :: r) -> c = x).
+      { intros c [<-|Hc]; [reflexivity|]. symmetry. apply Z.eqb_eq. apply H. exact Hc. }
+      rewrite (E c1 H1), (E c2 H2). reflexivity.
+    + intros H y Hy. apply Z.eqb_eq. apply H; [left; reflexivity|right; exact Hy].
+Qed.
+
+Lemma compat_viols_nil P S : compat_viols P S = [] <-> forall t, In t (sl_tours S) -> Compatible P t.
+Proof.
+  unfold compat_viols. rewrite mapi_nil_iff. split.
+  - intros H t Ht. apply In_nth_error in Ht. destruct Ht as [n Hn]. specialize (H n t Hn). cbv beta in H.
+    rewrite if_nil_iff in H. unfold Compatible. apply (proj1 (all_same_iff _)). exact H.
+  - intros H n t Hn. rewrite if_nil_iff. apply (proj2 (all_same_iff _)). apply H. eapply nth_error_In. exact Hn.
+Qed.
+
+Lemma legs_viol_nil P k : forall l d i,
+  legs_viol P k i (fa_loc d) l = [] <->
+  (forall l1 a b l2, d :: l = l1 ++ a :: b :: l2 -> perr P (fa_loc a) (fa_loc b) <= 0).
+Proof.
+  induction l as [|x r IH]; intros d i; cbn [legs_viol].
+  - split; [|reflexivity]. intros _ l1 a b l2 H. destruct l1 as [|y [|y' l1]]; discriminate.
+  - rewrite app_nil_iff, ifn_nil_iff, (IH x (i + 1)). split.
+    + intros [H1 H2] l1 a b l2 Heq. destruct l1 as [|y l1]; cbn [app] in Heq.
+      * injection Heq as <- <- _. apply Z.ltb_ge. exact H1.
+      * injection Heq as _ Heq. eapply H2. exact Heq.
+    + intros H. split.
+      * apply Z.ltb_ge. apply (H [] d x r). reflexivity.
+      * intros l1 a b l2 Heq. apply (H (d :: l1) a b l2). cbn [app]. rewrite Heq. reflexivity.
+Qed.
+
+Lemma reach_viol_nil P k t : reach_viol P k t = [] <-> Reachable P t.
+Proof.
+  unfold reach_viol, Reachable. destruct (flat_tour t) as [|d r].
+  - split; [|reflexivity]. intros _ l1 a b l2 H. destruct l1; discriminate.
+  - apply legs_viol_nil.
+Qed.
+
+Lemma reach_viols_nil P S : reach_viols P S = [] <-> forall t, In t (sl_tours S) -> Reachable P t.
+Proof.
+  unfold reach_viols. rewrite mapi_nil_iff. split.
+  - intros H t Ht. apply In_nth_error in Ht. destruct Ht as [n Hn]. apply (reach_viol_nil P (Z.of_nat n)). apply H. exact Hn.
+  - intros H n t Hn. apply reach_viol_nil. apply H. eapply nth_error_In. exact Hn.
+Qed.
+
+Lemma map_nodup_filter_nil (p : Z -> bool) l :
+  map FGroup (nodup Z.eq_dec (filter p l)) = [] <-> forall g, In g l -> p g = false.
+Proof.
+  split.
+  - intros H g Hg. destruct (p g) eqn:E; [|reflexivity].
+    assert (Hin : In g (nodup Z.eq_dec (filter p l))) by (apply nodup_In; apply filter_In; auto).
+    destruct (nodup Z.eq_dec (filter p l)); [contradiction|discriminate].
+  - intros H. assert (E : filter p l = []).
+    { destruct (filter p l) as [|x r] eqn:E; [reflexivity|].
+      assert (Hin : In x (filter p l)) by (rewrite E; left; reflexivity).
+      apply filter_In in Hin. destruct Hin as [H1 H2]. rewrite (H _ H1) in H2. discriminate. }
+    rewrite E. reflexivity.
+Qed.
+
+Lemma group_viols_from_nil P l : forall before,
+  group_viols_from P before l = [] <->
+  (forall n t g, nth_error l n = Some t -> In g (tour_groups P t) -> ~ In g before)
+  /\ (forall n1 n2 t1 t2 g, nth_error l n1 = Some t1 -> nth_error l n2 = Some t2 ->
+                            In g (tour_groups P t1) -> In g (tour_groups P t2) -> n1 = n2).
+Proof.
+  induction l as [|t r IH]; intros before; cbn [group_viols_from].
+  - split; [|reflexivity]. intros _. split.
+    + intros n t g H. destruct n; discriminate.
+    + intros n1 n2 t1 t2 g H. destruct n1; discriminate.
+  - cbv zeta. rewrite app_nil_iff, map_nodup_filter_nil, (IH (before ++ tour_groups P t)). split.
+    + intros [H1 [HA HB]]. split.
+      * intros n t' g Hn Hg Hin. destruct n as [|n]; cbn [nth_error] in Hn.
+        -- injection Hn as <-. specialize (H1 g Hg). apply zmem_In in Hin. congruence.
+        -- apply (HA n t' g Hn Hg). apply in_or_app. left. exact Hin.
+      * intros n1 n2 t1 t2 g Hn1 Hn2 Hg1 Hg2.
+        destruct n1 as [|n1], n2 as [|n2]; cbn [nth_error] in Hn1, Hn2.
+        -- reflexivity.
+        -- injection Hn1 as <-. exfalso. apply (HA n2 t2 g Hn2 Hg2). apply in_or_app. right. exact Hg1.
+        -- injection Hn2 as <-. exfalso. apply (HA n1 t1 g Hn1 Hg1). apply in_or_app. right. exact Hg2.
+        -- f_equal. eapply HB; eassumption.
+    + intros [HA HB]. split; [|split].
+      * intros g Hg. destruct (zmem g before) eqn:E; [|reflexivity]. exfalso.
+        apply zmem_In in E. apply (HA 0%nat t g eq_refl Hg E).
+      * intros n t' g Hn Hg Hin. apply in_app_or in Hin. destruct Hin as [Hin|Hin].
+        -- apply (HA (S n) t' g Hn Hg Hin).
+        -- assert (E : S n = 0%nat) by (apply (HB (S n) 0%nat t' t g Hn eq_refl Hg Hin)). discriminate.
+      * intros n1 n2 t1 t2 g Hn1 Hn2 Hg1 Hg2.
+        assert (E : S n1 = S n2) by (apply (HB (S n1) (S n2) t1 t2 g Hn1 Hn2 Hg1 Hg2)). injection E as E. exact E.
+Qed.
+
+Lemma group_viols_nil P S : group_viols P S = [] <-> Grouped P S.
+Proof.
+  unfold group_viols, Grouped. rewrite group_viols_from_nil. split.
+  - intros [_ H]. exact H.
+  - intros H. split; [intros n t g _ _ []|exact H].
+Qed.
+
+(* the three static rules together *)
+Lemma static_rules_nil P S :
+  compat_viols P S ++ group_viols P S ++ reach_viols P S = [] <->
+  (forall t, In t (sl_tours S) -> Compatible P t) /\ Grouped P S /\ (forall t, In t (sl_tours S) -> Reachable P t).
+Proof. rewrite !app_nil_iff, compat_viols_nil, group_viols_nil, reach_viols_nil. tauto. Qed.
+
+(* skills: allOf / oneOf / noneOf against the vehicle's skills *)
+Definition SkillsOk (vt : pvtype) (job : pjob) : Prop :=
+  (forall s, In s (pj_skills job) -> In s (vt_skills vt))
+  /\ (pj_one job = [] \/ exists s, In s (pj_one job) /\ In s (vt_skills vt))
+  /\ (forall s, In s (pj_none job) -> ~ In s (vt_skills vt)).
+
+Lemma skills_ok_iff vt job : skills_ok vt job = true <-> SkillsOk vt job.
+Proof.
+  unfold skills_ok, SkillsOk. rewrite !andb_true_iff, !forallb_forall. split.
+  - intros [[H1 H2] H3]. split; [|split].
+    + intros s Hs. apply zmem_In. apply H1. exact Hs.
+    + destruct (pj_one job) as [|x r]; [left; reflexivity|right].
+      apply existsb_exists in H2. destruct H2 as [s [Hs Hz]]. exists s. split; [exact Hs|apply zmem_In; exact Hz].
+    + intros s Hs Hin. specialize (H3 s Hs). apply negb_true_iff in H3. apply zmem_In in Hin. congruence.
+  - intros [H1 [H2 H3]]. split; [split|].
+    + intros s Hs. apply zmem_In. apply H1. exact Hs.
+    + destruct (pj_one job) as [|x r] eqn:E; [reflexivity|]. destruct H2 as [H2|[s [Hs Hin]]]; [discriminate|].
+      apply existsb_exists. exists s. split; [exact Hs|apply zmem_In; exact Hin].
+    + intros s Hs. apply negb_true_iff. destruct (zmem s (vt_skills vt)) eqn:E; [|reflexivity].
+      exfalso. apply (H3 s Hs). apply zmem_In. exact E.
+Qed.
+
+(* capacity in the extra dimensions: the checker reports nothing iff every projection of every tour that can be rebuilt is
+   load-feasible for the independent simulation (the projection is the single-dimension problem of that dimension) *)
+Lemma dims_feasible_viols_nil P S :
+  dims_feasible_viols P S = [] <->
+  forall n t d r, nth_error (sl_tours S) n = Some t -> (d < xdims P)%nat ->
+                  rebuild (dim_problem d P) (dim_tour d t) = Some r -> load_feasible (v_cap (rb_veh r)) (rb_acts r) = true.
+Proof.
+  unfold dims_feasible_viols. rewrite mapi_nil_iff. split.
+  - intros H n t d r Hn Hd Hr. specialize (H n t Hn). cbv beta in H. rewrite flat_map_nil_iff in H.
+    assert (Hin : In d (seq 0 (xdims P))) by (apply in_seq; lia).
+    specialize (H d Hin). unfold dim_tour_viol in H. rewrite Hr in H. cbv zeta in H. cbn [fst] in H.
+    apply if_nil_iff in H. exact H.
+  - intros H n t Hn. rewrite flat_map_nil_iff. intros d Hin. apply in_seq in Hin.
+    unfold dim_tour_viol. destruct (rebuild (dim_problem d P) (dim_tour d t)) as [r|] eqn:Hr; [|reflexivity].
+    cbv zeta. cbn [fst]. apply if_nil_iff. apply (H n t d r Hn); [lia|exact Hr].
+Qed.
+
 (* ------------------------------------------------------------------ Part R: the replay is the Core schedule model *)
 Lemma replay_from_resched dur loc dep acts :
   replay_from dur loc dep acts = map (fun a => (a_arr a, a_dep a)) (resched_from dur loc dep acts).
@@ -232,22 +397,22 @@ Proof. destruct t; cbn [tour_legs total_distance]; [reflexivity|]. apply legs_su
 (* three locations on a line (10 apart); job 1 = delivery at location 1 (5 s service), job 2 = pickup at location 2 with a
    window that closes at 10; one vehicle, closed shift, fixed 7, distance price 1, time price 2 *)
 Definition ex_P : pproblem :=
-  mkPProblem [mkPJob 1 [mkPTask 1 [mkPPlace 1 5 [(0, 100)] None] 1] true [];
-              mkPJob 2 [mkPTask 0 [mkPPlace 2 0 [(0, 10)] None] 1] true []]
-             [mkPVType 1 [1] [mkPShift 0 0 INF (Some (0, 1000))] 10 7 1 2 [] None None None]
-             3 [0; 10; 20; 10; 0; 10; 20; 10; 0] [0; 10; 20; 10; 0; 10; 20; 10; 0].
+  mkPProblem [mkPJob 1 [mkPTask 1 [mkPPlace 1 5 [(0, 100)] None] 1] true [] [] [] None None [];
+              mkPJob 2 [mkPTask 0 [mkPPlace 2 0 [(0, 10)] None] 1] true [] [] [] None None []]
+             [mkPVType 1 [1] [mkPShift 0 0 INF (Some (0, 1000))] 10 7 1 2 [] None None None []]
+             3 [0; 10; 20; 10; 0; 10; 20; 10; 0] [0; 10; 20; 10; 0; 10; 20; 10; 0] [].
 Definition ex_stat : sstat := mkSStat 77 20 25 20 5 0 0.
 Definition ex_tour : stour :=
   mkSTour 1 1 0 [mkSStop 0 0 0 1 0 [mkSAct (-1) 10 None None None];
                  mkSStop 1 10 15 0 10 [mkSAct 1 1 None None None];
-                 mkSStop 0 25 25 0 20 [mkSAct (-1) 11 None None None]] ex_stat.
+                 mkSStop 0 25 25 0 20 [mkSAct (-1) 11 None None None]] ex_stat [].
 (* job 1 served, job 2 unassigned with one reason: accepted by the WHOLE checker *)
 Definition ex_S : ssolution := mkSSolution ex_stat [ex_tour] [(2, 1%nat)].
 (* the same, but job 1 is also listed as unassigned *)
 Definition ex_S_dup : ssolution := mkSSolution ex_stat [ex_tour] [(2, 1%nat); (1, 1%nat)].
 (* the same, but the reported cost is off by one *)
 Definition ex_S_cost : ssolution :=
-  mkSSolution (mkSStat 78 20 25 20 5 0 0) [mkSTour 1 1 0 (to_stops ex_tour) (mkSStat 78 20 25 20 5 0 0)] [(2, 1%nat)].
+  mkSSolution (mkSStat 78 20 25 20 5 0 0) [mkSTour 1 1 0 (to_stops ex_tour) (mkSStat 78 20 25 20 5 0 0) []] [(2, 1%nat)].
 
 Lemma ex_valid : valid_b ex_P ex_S = [].
 Proof. vm_compute. reflexivity. Qed.
